@@ -95,7 +95,9 @@ func worlds() []world {
 		z["o.example/65"] = []dnsref.RR{https("o.example", 0, "a1.example", nil, 0)}
 		z["a1.example/65"] = []dnsref.RR{https("a1.example", 1, "", listE1, 0)}
 	})
-	add("target-with-own-address-ech", func(z map[string][]dnsref.RR) { z["o.example/65"] = []dnsref.RR{https("o.example", 1, "t1.example", listE1, 0)} })
+	add("target-with-own-address-ech", func(z map[string][]dnsref.RR) {
+		z["o.example/65"] = []dnsref.RR{https("o.example", 1, "t1.example", listE1, 0)}
+	})
 	return out
 }
 
@@ -111,13 +113,13 @@ type scenario struct {
 }
 
 type invocation struct {
-	addr     string
-	sn       string
-	list     []byte
-	tcPtr    *tls.Config
-	ctxDone  bool
-	outcome  int
-	retryOf  int // index of the invocation this one retries, -1
+	addr    string
+	sn      string
+	list    []byte
+	tcPtr   *tls.Config
+	ctxDone bool
+	outcome int
+	retryOf int // index of the invocation this one retries, -1
 }
 
 type fakeConn struct{ id int }
@@ -390,7 +392,14 @@ func Debug() string {
 	sc := scenario{1, ws[1].Name, false, false, false, false, "", "o.example:443"}
 	vec := []int{3, 3, 3, 0}
 	pos := 0
-	inv, err, before, after, caller, eE, eH := runOnce(sc, ws[1], "dbg.test", func(n int, kind string) int { p := 0; if pos < len(vec) { p = vec[pos] }; pos++; return p })
+	inv, err, before, after, caller, eE, eH := runOnce(sc, ws[1], "dbg.test", func(n int, kind string) int {
+		p := 0
+		if pos < len(vec) {
+			p = vec[pos]
+		}
+		pos++
+		return p
+	})
 	k, w := check(sc, inv, before, after, caller, eE, eH)
 	s := fmt.Sprintf("err=%v key=%q %s\n", err, k, w)
 	for i, iv := range inv {
